@@ -227,6 +227,9 @@ def least_squares(x, y, func, priors=None, silent=False, **kwargs):
     '''
     output = Fit_result()
 
+    if isinstance(kwargs.get('correlated_fit'), np.bool_):
+        kwargs['correlated_fit'] = bool(kwargs['correlated_fit'])
+
     if (isinstance(x, dict) and isinstance(y, dict) and isinstance(func, dict)):
         xd = {key: anp.asarray(x[key]) for key in x}
         yd = y
